@@ -803,7 +803,10 @@ impl<'p> Emitter<'p> {
 
     fn doc(&mut self, doc: &[String], blank: bool) {
         for d in doc {
-            self.w(&format!("// {d}"));
+            // an empty entry is a blank line inside the run of comments
+            if !d.is_empty() {
+                self.w(&format!("// {d}"));
+            }
             self.nl();
         }
         if blank && !doc.is_empty() {
@@ -818,7 +821,9 @@ impl<'p> Emitter<'p> {
         if blank {
             vec![]
         } else {
-            doc.to_vec()
+            // only the comment lines below the last blank line are directly above the declaration
+            let start = doc.iter().rposition(|d| d.is_empty()).map(|i| i + 1).unwrap_or(0);
+            doc[start..].to_vec()
         }
     }
 
@@ -1142,7 +1147,7 @@ impl<'p> Emitter<'p> {
                 self.doc(doc, false);
                 let start = self.pos();
                 self.w("multiclass ");
-                let d = self.decl(DeclKind::Multiclass, name, None, doc, None);
+                let d = self.decl(DeclKind::Multiclass, name, None, &Self::effective_doc(doc, false), None);
                 self.multiclasses.insert(name.clone(), d);
                 self.scopes.push(Scope::Multiclass { targs: vec![], vars: vec![] });
                 let children: Vec<Sym> = self.targs(targs, name, None).into_iter().map(|(_, _, s)| s).collect();
